@@ -21,12 +21,15 @@ Proof.
   - intros H. inversion H. left. reflexivity.
 Qed.
 
-Lemma index_of_from_found k c l :
+Lemma index_of_from_found k c l : canonical c -> canon_list l ->
   (exists d, In d l /\ fst d = fst c) ->
   let r := index_of_from k c l in
   k <= r /\ r < k + length l /\ fst (nth (r - k) l cdefault) = fst c.
 Proof.
-  revert k. induction l as [|d l IH]; intros k [d' [Hin E]]; [destruct Hin|]. simpl.
+  intros Hcc Hcl. revert k. induction l as [|d l IH]; intros k [d' [Hin E]]; [destruct Hin|]. simpl.
+  rewrite (same_extent_canon c d Hcc (Hcl d (or_introl eq_refl))).
+  assert (Hcl' : canon_list l) by (intros x Hx; apply Hcl; right; exact Hx).
+  specialize (IH Hcl').
   destruct (nat_list_eqb (fst c) (fst d)) eqn:Q.
   - apply nat_list_eqb_eq in Q. rewrite Nat.sub_diag. repeat split; try lia. simpl. congruence.
   - destruct Hin as [->|Hin].
@@ -36,21 +39,22 @@ Proof.
       simpl. exact H3.
 Qed.
 
-Lemma index_of_found c l : (exists d, In d l /\ fst d = fst c) ->
+Lemma index_of_found c l : canonical c -> canon_list l -> (exists d, In d l /\ fst d = fst c) ->
   index_of c l < length l /\ fst (nth (index_of c l) l cdefault) = fst c.
 Proof.
-  intros H. destruct (index_of_from_found 0 c l H) as [_ [H2 H3]]. unfold index_of.
+  intros Hcc Hcl H. destruct (index_of_from_found 0 c l Hcc Hcl H) as [_ [H2 H3]]. unfold index_of.
   rewrite Nat.sub_0_r in H3. split; [lia | exact H3].
 Qed.
 
-Lemma index_of_zero c d l : index_of c (d :: l) = 0 -> fst c = fst d.
+Lemma index_of_zero c d l : canonical c -> canonical d -> index_of c (d :: l) = 0 -> fst c = fst d.
 Proof.
-  unfold index_of. simpl. destruct (nat_list_eqb (fst c) (fst d)) eqn:Q.
+  intros Hcc Hcd. unfold index_of. simpl. rewrite (same_extent_canon c d Hcc Hcd).
+  destruct (nat_list_eqb (fst c) (fst d)) eqn:Q.
   - intros _. apply nat_list_eqb_eq. exact Q.
   - intros H. exfalso.
     assert (G : forall k l', k <= index_of_from k c l').
     { intros k l'. revert k. induction l' as [|x l' IH]; intros k; simpl; [lia|].
-      destruct (nat_list_eqb (fst c) (fst x)); [lia|]. specialize (IH (S k)). lia. }
+      destruct (same_extent c x); [lia|]. specialize (IH (S k)). lia. }
     specialize (G 1 l). lia.
 Qed.
 
@@ -62,6 +66,7 @@ Section Chains.
   Let isort_i := fun k => index_of (cnth sorted k) cs.
   Let i_isort := fun i => index_of (cnth cs i) sorted.
   Hypothesis Hrange : forall c p, In p (parents c) -> p < n.
+  Hypothesis Hcanon : canon_list cs.
 
   (* the node in first position of the sorted listing *)
   Definition head_ok (h : nat) : Prop := extent cs h = extent sorted 0.
@@ -69,9 +74,13 @@ Section Chains.
   Lemma sorted_length : length sorted = n.
   Proof. unfold sorted, n. symmetry. apply Permutation_length. apply sort_perm. Qed.
 
+  Lemma sorted_canon : canon_list sorted.
+  Proof. intros c Hc. apply Hcanon. apply (Permutation_in _ (Permutation_sym (sort_perm cs))). exact Hc. Qed.
+
   Lemma isort_lt k : k < n -> isort_i k < n /\ extent cs (isort_i k) = extent sorted k.
   Proof.
-    intros Hk. unfold isort_i. apply index_of_found. exists (cnth sorted k). split; [|reflexivity].
+    intros Hk. unfold isort_i. apply index_of_found; [apply cnth_canon, sorted_canon | exact Hcanon|].
+    exists (cnth sorted k). split; [|reflexivity].
     apply (Permutation_in _ (Permutation_sym (sort_perm cs))). apply nth_In. pose proof sorted_length as X. unfold sorted, n in *. lia.
   Qed.
 
@@ -79,7 +88,8 @@ Section Chains.
   Proof.
     intros Hn H. unfold i_isort in H. unfold head_ok, extent.
     destruct sorted as [|d l] eqn:S; [assert (X := sorted_length); rewrite S in X; simpl in X; lia|].
-    apply index_of_zero in H. exact H.
+    apply index_of_zero in H; [exact H | apply cnth_canon, Hcanon|].
+    assert (X := sorted_canon). rewrite S in X. apply X. left. reflexivity.
   Qed.
 
   Lemma chain_walk_ok fuel : forall c s acc ch,
@@ -193,7 +203,7 @@ Proof.
   assert (Hn : 0 < length cs).
   { destruct (top_exists t cs HF) as [k [Hk _]]. lia. }
   destruct (chains_loop_ok cs (parents_nocache cs) (parents_nocache_range cs)
-              (S (length cs)) [] [] chains Hn) as [H1 H2]; auto.
+              (concept_list_canon t cs (proj1 HF)) (S (length cs)) [] [] chains Hn) as [H1 H2]; auto.
   - constructor.
   - intros x [].
   - intros x [].
